@@ -70,7 +70,7 @@ FIRST = {
  "C01_2": "missed at first; caught after C01.step_over_brkpt was added", "C01_3": "missed at first; caught after C01.report was added",
  "C03_1": "missed at first; caught after C03.tmp_owner was added", "C03_2": "not detected: the DIE-tree walk (gimli iterators) is outside both tools", "C03_3": "caught only under C02 at first; caught under C03 after C03.step_entry was added",
  "C07_1": "UNDECIDED: the seed rewrites the closure with iterator adapters that Verus cannot read and a Kani harness on the real Value type did not terminate (17 min); C07.index catches arithmetic changes of the arm", "C07_2": "missed at first; caught after C07.set_match was added", "C07_3": "not detected: chumsky float parser (format!/parse::<f64>) is outside both tools",
- "C09_1": "missed at first; caught after stop marks were added to C09.thread_table", "C09_2": "missed at first; caught after C09.resume_restop was added", "C09_3": "not detected: the re-step on an unmoved pc has no contract (instruction-trace semantics)",
+ "C09_1": "missed at first; caught after stop marks were added to C09.thread_table", "C09_2": "missed at first; caught after C09.resume_restop was added", "C09_3": "missed at first; caught after the pc-moved assertion was added to the single_step units (C09.single_step_moved)",
  "C10_2": "missed at first; caught after C10.cont_stopped was added", "C10_3": "missed at first; caught after the transparent-table outline was added to C10.single_step",
  "C11_1": "UNDECIDED at first (unknown expression); caught after the attach-time thread list was modelled in C11.drop", "C11_2": "missed at first; caught after C11.disable_all was added", "C11_3": "missed at first; caught after C11.restart was added",
  "C12_1": "UNDECIDED at first (lost proof anchor); caught after the anchor was removed and mem::take was outlined", "C12_2": "missed at first; caught after handle_next was put under contract (C12.handlers)", "C12_3": "missed at first; caught after handle_configuration_done was put under contract (C12.handlers)",
